@@ -573,11 +573,15 @@ theorem emit_literal_push_sites :
     ∧ Generated.SQCtx.topCaseTypes = ["*SexpArray", "*SexpPair", "*SexpHash"]
     ∧ Generated.SQCtx.topCasesReturn = true := by decide
 
-/-- The macro branch: Duplicate, Apply on the duplicate, then `return gen.Generate(expr)` — the
-generator that met the call compiles the expansion (`genC`, macro arm). -/
+/-- The macro branch: (since fix 1a3d12c) the nesting-depth guard — an error return beyond
+`MaxMacroExpansionDepth`, the counter incremented and decremented by a `defer`; the model's
+expansion is fuel-bounded instead — then Duplicate, Apply on the duplicate, then
+`return gen.Generate(expr)`: the generator that met the call compiles the expansion (`genC`,
+macro arm). -/
 theorem emit_macro_branch :
     Generated.SQCtx.macroBranch
-      = ["call:gen.env.Duplicate", "call:env.Apply", "if[", "ret:err", "]", "ret:gen.Generate"] := by decide
+      = ["if[", "ret:fmt.Errorf", "]", "stmt:*ast.IncDecStmt", "stmt:*ast.DeferStmt",
+         "call:gen.env.Duplicate", "call:env.Apply", "if[", "ret:err", "]", "ret:gen.Generate"] := by decide
 
 /-- The switch of GenerateCallBySymbol has exactly the cases `genC` treats as special forms. -/
 theorem emit_special_forms : Generated.SQEmit.callBySymbolCases = specialForms := by decide
